@@ -123,6 +123,7 @@ int cParseFloatFormat(char *buf, int *num, int *size)
            num picked up refers to P, which should be skipped. */
         if (*tmp=='p' || *tmp=='P') {
            ++tmp;
+           if (*tmp == ',') ++tmp; /* the scale factor may be followed by a comma: (1P,6F13.6) */
            *num = atoi(tmp); /*sscanf(tmp, "%d", num);*/
         } else {
            ++tmp;
